@@ -53,6 +53,10 @@ func LoadKnown() (*KnownFile, error) {
 // RunKnown re-executes the witness of every listed finding of this property
 // and prints a KNOWN-FINDING line for each that still reproduces.  The file is
 // never written at run time.
+// ReproduceHook, if set, re-executes a witness outside this process (a run that
+// hangs must not hang the check); it reports (reproduced, hung).
+var ReproduceHook func(rp *Replay) (bool, bool)
+
 func RunKnown(s *Spec, out io.Writer) int {
 	kf, err := LoadKnown()
 	if err != nil {
@@ -73,7 +77,16 @@ func RunKnown(s *Spec, out io.Writer) int {
 		if f.Signature != "" {
 			rp.Violation.Sig = f.Signature
 		}
-		ok, _ := Reproduce(rp)
+		var ok, hung bool
+		if ReproduceHook != nil {
+			ok, hung = ReproduceHook(rp)
+		} else {
+			ok, _ = Reproduce(rp)
+		}
+		if hung {
+			fmt.Fprintf(out, "note: the witness of listed finding %s (property %s) does not return any more (%s); nothing is suppressed\n", f.ID, s.ID, f.Witness)
+			continue
+		}
 		if ok {
 			fmt.Fprintf(out, "KNOWN-FINDING: property=%s %s [%s, witness %s]\n", s.ID, f.What, f.ID, f.Witness)
 			n++
